@@ -21,7 +21,7 @@ open Woodpile.Pipe (Cell Pipe)
 
 /-- Operations for which the refinement proof is finished. -/
 def Proved : Op → Prop
-  | .pushBorrowed _ | .consume _ | .advance _ => True
+  | .pushCopy _ | .pushBorrowed _ | .push _ | .extend _ | .consume _ | .advance _ => True
   | _ => False
 
 /-- Per-operation refinement: a non-panicking operation preserves the invariant, acts on the
@@ -31,7 +31,10 @@ theorem op_refines_partial (i : Nat) (s s' : State) (op : Op) (r : Ret) (hp : Pr
     (h : step i s op = some (s', r)) :
     Inv i s' ∧ abs i s' = specStep (abs i s) op r ∧ specOk (abs i s) op r := by
   cases op with
+  | pushCopy b => exact (refines_pushCopy i s b hinv).elim s' r h
   | pushBorrowed b => exact (refines_pushBorrowed i s b hinv).elim s' r h
+  | push b => exact (refines_push i s b hinv).elim s' r h
+  | extend b => exact (refines_extend i s b hinv).elim s' r h
   | consume c => exact (refines_consume i s c hinv).elim s' r h
   | advance c => exact (refines_advance i s c hinv).elim s' r h
   | _ => cases hp
